@@ -11,7 +11,23 @@ TYPE_KINDS = ['stvar', 'tvar', 'tconst']
 TYPE_CONSTS = {'STVAR': 'stvar', 'TVAR': 'tvar', 'TCONST': 'tconst'}
 
 
-def kind_test(expr, recv_pred, kinds=TERM_KINDS, consts=TERM_CONSTS):
+def _ty_receiver(a, recv_pred, flow):
+    """a is `<receiver>.ty` for an accepted receiver - directly, or a local name whose only definition is that"""
+    if isinstance(a, ast.Attribute) and a.attr == 'ty' and recv_pred(a.value):
+        return True
+    if flow is not None and isinstance(a, ast.Name):
+        try:
+            paths = flow.resolve(a)
+        except RecursionError:      # pragma: no cover
+            return False
+        if len(paths) == 1:
+            p = next(iter(paths))
+            if p.endswith('.ty') and '.' not in p[:-3] and '[' not in p and '(' not in p:
+                return recv_pred(ast.Name(id=p[:-3], ctx=ast.Load()))
+    return False
+
+
+def kind_test(expr, recv_pred, kinds=TERM_KINDS, consts=TERM_CONSTS, flow=None):
     """If expr is an atomic kind test on a receiver accepted by recv_pred, return
     (kind, exact) where exact=False means 'True only if kind, but may be False for that kind'
     (e.g. is_const('foo'), is_comb('plus', 2)).  Otherwise None."""
@@ -21,18 +37,24 @@ def kind_test(expr, recv_pred, kinds=TERM_KINDS, consts=TERM_CONSTS):
     cp = compare_parts(expr)
     if cp and cp[0] in (ast.Eq, ast.NotEq):
         for a, b in ((cp[1], cp[2]), (cp[2], cp[1])):
-            if isinstance(a, ast.Attribute) and a.attr == 'ty' and recv_pred(a.value):
+            if _ty_receiver(a, recv_pred, flow):
                 nm = b.attr if isinstance(b, ast.Attribute) else (b.id if isinstance(b, ast.Name) else None)
                 if nm in consts:
                     return consts[nm], True
     return None
 
 
-def infeasible_edges(cfg, recv_pred, kind, kinds=TERM_KINDS, consts=TERM_CONSTS):
+def infeasible_edges(cfg, recv_pred, kind, kinds=TERM_KINDS, consts=TERM_CONSTS, flow=None):
     """Edges that cannot be taken when every receiver accepted by recv_pred has the given kind."""
+    if flow is None:
+        from .flow import flow_of
+        try:
+            flow = flow_of(cfg.func)
+        except Exception:      # pragma: no cover
+            flow = None
     skip = set()
     for n in cfg.test_nodes():
-        kt = kind_test(n.ast, recv_pred, kinds, consts)
+        kt = kind_test(n.ast, recv_pred, kinds, consts, flow)
         if kt is None:
             continue
         k, exact = kt
